@@ -22,6 +22,7 @@ import (
 
 	"go.minekube.com/gate/pkg/edition/java/proto/packet"
 	"go.minekube.com/gate/pkg/edition/java/proto/packet/chat"
+	"go.minekube.com/gate/pkg/edition/java/proto/packet/plugin"
 	"go.minekube.com/gate/pkg/edition/java/proto/packet/title"
 	"go.minekube.com/gate/pkg/edition/java/proto/state"
 	"go.minekube.com/gate/pkg/edition/java/proto/util/queue"
@@ -36,6 +37,10 @@ const (
 	idTimesPlay     = 0x6D // set_titles_animation, play
 	idKeepAlivePlay = 0x27
 	idKeepAliveCfg  = 0x04
+	idPluginMsgPlay = 0x19 // custom_payload
+	idPluginMsgCfg  = 0x01
+	idTransferPlay  = 0x7A // transfer: exists since 1.20.5 (766) in both phases - valid in configuration only for >= 766
+	idTransferCfg   = 0x0B
 	timesMagic      = 0x7E570000
 	holdLimit       = 1024 // "the holding queue is bounded"
 
@@ -81,7 +86,7 @@ func (c *recConn14) SetReadDeadline(time.Time) error  { return nil }
 func (c *recConn14) SetWriteDeadline(time.Time) error { return nil }
 
 type wrec struct {
-	kind        byte // 'P' play-only, 'K' config-valid
+	kind        byte // 'P' play-only; config-valid: 'K' keep-alive, 'M' plugin message, 'T' transfer (config-valid since 1.20.5 only)
 	writer, seq int
 	call, ret   int
 	err         error
@@ -160,8 +165,13 @@ func (h *h14) mkPacket(kind byte, w, seq int) proto.Packet {
 		}
 		return &packet.ClientSettings{Locale: fmt.Sprintf("w%ds%d", w, seq), ViewDistance: 8, MainHand: 1}
 	}
-	if kind == 'P' {
+	switch kind {
+	case 'P':
 		return &title.Times{FadeIn: timesMagic + w, Stay: seq, FadeOut: 7}
+	case 'M':
+		return &plugin.Message{Channel: "verif:c14", Data: []byte{byte(w), byte(seq)}}
+	case 'T':
+		return &packet.Transfer{Host: fmt.Sprintf("w%ds%d", w, seq), Port: 25565}
 	}
 	return &packet.KeepAlive{RandomID: int64(w)<<32 | int64(seq)}
 }
@@ -282,6 +292,19 @@ func (h *h14) decode() ([]frame14, bool) {
 		case (id == idKeepAlivePlay || id == idKeepAliveCfg) && len(pl) == 8:
 			v := binary.BigEndian.Uint64(pl)
 			f.kind, f.writer, f.seq = 'K', int(v>>32), int(v&0xffffffff)
+		case (id == idPluginMsgPlay || id == idPluginMsgCfg) && len(pl) == 12 && string(pl[:10]) == "\x09verif:c14":
+			f.kind, f.writer, f.seq = 'M', int(pl[10]), int(pl[11])
+		case id == idTransferPlay || id == idTransferCfg:
+			l, n, ok := readVarint(pl)
+			if !ok || n+l > len(pl) {
+				h.e.Fail("stream/garbled", "bad transfer packet at offset %d", off)
+				return out, false
+			}
+			if _, err := fmt.Sscanf(string(pl[n:n+l]), "w%ds%d", &f.writer, &f.seq); err != nil {
+				h.e.Fail("stream/unknown-frame", "transfer at offset %d carries host %q", off, pl[n:n+l])
+				return out, false
+			}
+			f.kind = 'T'
 		default:
 			h.e.Fail("stream/unknown-frame", "frame at offset %d: id=0x%x payload % x is none of the packets written", off, id, pl)
 			return out, false
@@ -427,7 +450,7 @@ func (h *h14) finish() {
 		}
 		// --- config-valid packets are written immediately (present when WritePacket returns) ---
 		for _, w := range h.writes {
-			if w.kind == 'K' && w.err == nil && w.flushed {
+			if w.kind != 'P' && w.err == nil && w.flushed {
 				if fs := byKey[key(w)]; len(fs) == 1 && fs[0].end > w.posRet {
 					h.e.Fail("config-packet-delayed", "config-valid packet %v was not in the stream when WritePacket returned (frame ends at %d, stream was %d); history: %s", w, fs[0].end, w.posRet, hist)
 				}
@@ -604,6 +627,45 @@ func scenarios14() []dualrun.Scenario {
 				h.write('K', 1, 4, true)
 			})
 			e.Go("st", func() { h.setState("SwitchSessionHandler", true); h.setState("SwitchSessionHandler", false) })
+			e.AtEnd(h.finish)
+		}},
+		// ---- more than one kind of configuration-valid packet: the decision is a lookup in the configuration
+		// registry OF THE CONNECTION'S PROTOCOL VERSION - keep-alive and plugin message are valid there since
+		// 1.20.2, transfer only since 1.20.5 ----
+		{Name: "config-valid-kinds/roundtrip/1writer", Quick: 3, Thorough: U, FreeQuick: 200, FreeThorough: 3000, Body: func(e *dualrun.Env) {
+			h := new14(e, false)
+			e.Go("w1", func() {
+				h.write('P', 1, 1, true)
+				h.write('M', 1, 2, true)
+				h.write('T', 1, 3, true)
+				h.write('K', 1, 4, true)
+				h.write('P', 1, 5, true)
+			})
+			e.Go("st", func() { h.setState("SetState", true); h.setState("SetState", false) })
+			e.AtEnd(h.finish)
+		}},
+		{Name: "config-valid-kinds/in-config/2writers", Quick: 3, Thorough: U, FreeQuick: 200, FreeThorough: 3000, Body: func(e *dualrun.Env) {
+			h := new14(e, true)
+			e.Go("w1", func() { h.write('T', 1, 1, true); h.write('P', 1, 2, true) })
+			e.Go("w2", func() { h.write('M', 2, 1, false); h.write('T', 2, 2, true) })
+			e.AtEnd(h.finish)
+		}},
+		// ---- first vs repeated occurrence: a second configuration phase on the same connection (every server
+		// switch of a 1.20.2+ client is one) ----
+		{Name: "two-config-phases/1writer", Quick: 3, Thorough: U, FreeQuick: 200, FreeThorough: 3000, Body: func(e *dualrun.Env) {
+			h := new14(e, false)
+			e.Go("w1", func() {
+				h.write('P', 1, 1, true)
+				h.write('K', 1, 2, true)
+				h.write('P', 1, 3, true)
+				h.write('P', 1, 4, true)
+			})
+			e.Go("st", func() {
+				h.setState("SetState", true)
+				h.setState("SetState", false)
+				h.setState("SetOutboundState", true)
+				h.setState("SetActiveSessionHandler", false)
+			})
 			e.AtEnd(h.finish)
 		}},
 		// ---- bound ----
